@@ -1,7 +1,7 @@
 #!/bin/bash
 # usage: run_all.sh <tier> <seed...>   -> one line per (check, seed)
 TIER=$1; shift
-cd /verif
+cd "$(dirname "$(readlink -f "$0")")"
 for s in "$@"; do
   for c in $(python3 -c "import json; print(' '.join(x['property_id'] for x in json.load(open('MANIFEST.json'))['checks']))"); do
     start=$(date +%s)
